@@ -129,3 +129,77 @@ func genGolden(madeFrom string) int {
 	fmt.Println("golden streams written:", n)
 	return 0
 }
+
+// genGolden2 adds a second, directed batch (h000...): every combination of
+// five key shapes chosen for where leaf tails sit (only on the first leaves,
+// nowhere, only on the last leaves, everywhere), four value kinds (none, fixed,
+// two variable-width ones) and five option sets. What the builder writes for
+// these - presence bitmaps shorter than the leaf count, absent optional
+// sections, zero counters - is part of the persisted format whether or not it
+// was intended.
+func genGolden2(madeFrom string) int {
+	os.MkdirAll(goldenDir(), 0755)
+	r := NewRNG(0x601d2)
+	dense := func() []string { // 256 two-byte keys, fully branching: no leaf has a tail
+		var ks []string
+		for a := 0; a < 16; a++ {
+			for b := 0; b < 16; b++ {
+				ks = append(ks, string([]byte{byte(0x20 + a), byte(0x40 + b*3)}))
+			}
+		}
+		return ks
+	}
+	shapes := []struct {
+		name string
+		gen  func() []string
+	}{
+		{"tails-early", func() []string {
+			return sortUniq(append(dense(), "\x01"+string(r.Bytes(9)), "\x02long-tail-here", "\x03\xff\xfe tail", "\x04t"))
+		}},
+		{"no-tails", func() []string {
+			var ks []string
+			for b := 0; b < 200; b++ {
+				ks = append(ks, string([]byte{byte(b + 20)}))
+			}
+			return ks
+		}},
+		{"tails-late", func() []string {
+			return sortUniq(append(dense(), "\xf1"+string(r.Bytes(9)), "\xf2long-tail-here", "\xf3\xff\xfe tail", "\xf4t"))
+		}},
+		{"uniform", func() []string { return genUniform(r, 300) }},
+		{"decimal", func() []string { return genDecimal(r, 300) }},
+	}
+	kinds := []string{"none", "i32", "str16", "rawstr"}
+	opts := []OptSet{{D: true, L: true}, {D: true, C: true}, {I: true, L: true}, {D: true}, {D: true, I: true}}
+	n := 0
+	for si, sh := range shapes {
+		for ki, kind := range kinds {
+			for oi, o := range opts {
+				keys := sh.gen()
+				vals := genVals(r, kind, len(keys), []int{0, 1, 4}[(si+ki+oi)%3])
+				st, err := trie.NewSlimTrie(vals.Encoder(), keys, vals.Slice(), o.Opt())
+				if err != nil {
+					fmt.Println("skip", sh.name, kind, o, err)
+					continue
+				}
+				stream, err := st.Marshal()
+				if err != nil {
+					continue
+				}
+				g := goldenFile{Name: fmt.Sprintf("h%03d-%s-%s-%s", n, sh.name, kind, o.String()), Opt: o.String(), ValueKind: kind, BytesN: vals.N,
+					Ints: vals.Ints, Stream: base64.StdEncoding.EncodeToString(stream), Version: st.GetVersion(), MadeFrom: madeFrom}
+				for _, k := range keys {
+					g.KeysHex = append(g.KeysHex, hex.EncodeToString([]byte(k)))
+				}
+				for _, s := range vals.Strs {
+					g.StrsHex = append(g.StrsHex, hex.EncodeToString([]byte(s)))
+				}
+				b, _ := json.Marshal(g)
+				ioutil.WriteFile(filepath.Join(goldenDir(), g.Name+".json"), b, 0644)
+				n++
+			}
+		}
+	}
+	fmt.Println("golden streams written (second batch):", n)
+	return 0
+}
